@@ -13,7 +13,7 @@ OPTS = {'quick': {'selfcheck_mod': 60, 'budget_s': 280}, 'thorough': {'selfcheck
 STEP_LIMIT = 1_500_000
 BOUNDS = {
     'quick': 'bodies of up to 3 goals (6 conjunction/disjunction shapes) over {p($X), q($X), r($X, $Y), $X = b, fail} and the output goals print(x), print($X), print("<%s>", $X), '
-             'print("%s-%s.", $X, $Y) nl, print_list([$X, k]), print_list($L) with $L bound through a list fact; at least one output goal per body; the text written before each '
+             'print("%s-%s.", $X, $Y), nl, print_list([$X, k]), print_list($L) with $L bound through a list fact, print_list([$X | $L]) with a bound tail, print_list of nested / empty lists and numbers, print with surplus arguments, without markers, with a float and with a bound integer; at least one output goal per body; the text written before each '
              'answer and after the last one is compared with the reference search; unit level: format_for_print_pred on a format string of 0-5 characters over {%, s, a} (each a '
              'solver variable) with 0-3 further arguments',
     'thorough': 'adds a second output goal menu entry with two markers and three arguments, print_list on a bound-tail list, and 7-character format strings',
@@ -21,7 +21,9 @@ BOUNDS = {
 OUTSIDE = 'time(...) output; printing unbound variables; print_list with several arguments'
 ASSUMPTIONS = ['stdout is the modelled io::_print log in the executor and the captured process output in the native replay']
 
-OUTG = [gb('print', A('x')), gb('print', X), gb('print', A('<%s>'), X), gb('print', A('%s-%s.'), X, Y), gb('nl'), gb('print_list', L(X, A('k'))), AND(gc('l', Z), gb('print_list', Z))]
+OUTG = [gb('print', A('x')), gb('print', X), gb('print', A('<%s>'), X), gb('print', A('%s-%s.'), X, Y), gb('nl'), gb('print_list', L(X, A('k'))), AND(gc('l', Z), gb('print_list', Z)),
+        AND(gc('l', Z), gb('print_list', L(X, tail=Z))), gb('print_list', L(L(A('b'), A('m')), L(), I(3), ('float', 2.5), X)), gb('print', A('%s and %s'), X, A('y'), A('z'), I(7)),
+        gb('print', X, A(' is '), ('float', 0.25), A('%')), AND(gc('n', Z), gb('print', A('n=%s;'), Z))]
 MENU = [gc('p', X), gc('q', X), gc('r', X, Y), U(X, A('b')), gb('fail')]
 
 
